@@ -5,9 +5,10 @@ CONSTANTS
   MaxArgs = 2
   MaxSteps = 4
   MaxEx = 2
-  Outs = {"ok", "err", "panic", "pnil", "exit"}
+  Outs = {"ok", "err", "panic", "pnil", "exit", "nilfn"}
   Fins = {"none", "commit", "rollback"}
   CancelOn = TRUE
+  DbStates = {"ok", "nobegin", "err"}
   Depth = 40
 INVARIANTS Emit
 CHECK_DEADLOCK FALSE
